@@ -348,7 +348,11 @@ func (w *World) projectNet() map[string]interface{} {
 			}
 			for _, p := range r.HTTP.Paths {
 				paths++
-				if p.Backend.Service == nil || p.Backend.Service.Name != SvcName+"-canary" {
+				want := SvcName + "-canary"
+				if w.Cfg.TRRef { // only-traffic-routing mode: no canary Service is generated, the canary backend is the stable Service
+					want = SvcName
+				}
+				if p.Backend.Service == nil || p.Backend.Service.Name != want {
 					ok = false
 				}
 			}
